@@ -209,6 +209,10 @@ class Engine:
                 return env[name]
         if name in self.spec_builtins and self.spec_mode:
             return self.spec_builtins[name]
+        cur = self.current_func[-1] if self.current_func else None
+        if cur is not None and cur.node is not None and not self.spec_mode and "__closure__" not in st.frames[-1]:
+            if name in self.local_names(cur):
+                return Raised(ExcVal("UnboundLocalError", (name,)))
         mod = self.cur_module()
         if mod is not None:
             v = self.module_global(st, mod, name)
@@ -220,6 +224,25 @@ class Engine:
         if b is not None:
             return b
         raise Unsupported(f"unknown name {name!r}")
+
+    _local_names_cache = {}
+
+    def local_names(self, fref):
+        k = id(fref.node)
+        if k not in self._local_names_cache:
+            names = set()
+            for x in ast.walk(fref.node):
+                if isinstance(x, ast.Name) and isinstance(x.ctx, (ast.Store, ast.Del)):
+                    names.add(x.id)
+                elif isinstance(x, ast.arg):
+                    names.add(x.arg)
+                elif isinstance(x, ast.ExceptHandler) and x.name:
+                    names.add(x.name)
+            for x in ast.walk(fref.node):
+                if isinstance(x, (ast.Global, ast.Nonlocal)):
+                    names -= set(x.names)
+            self._local_names_cache[k] = (fref.node, names)
+        return self._local_names_cache[k][1]
 
     def module_global(self, st, relpath, name, depth=0):
         key = (relpath, name)
